@@ -10,12 +10,20 @@ from analysis.props import dprops
 # the function index of the reference tree comes first: functions that are not in it are treated as NEW helpers and expanded at their call sites
 import analysis.core as _core
 _ids = set()
+_cfgs = {}
+_core.RENAMES.clear()
 for _cfg in ('default', 'truncated', 'devcurves'):
-    _wc = World(_cfg)
-    for _c in _wc.crates():
-        for _f in facts.load(_wc.dir, _c, 'hir')['fns']:
-            _ids.add(norm(_f['id']))
-json.dump(sorted(_ids), open(os.path.join(facts.VERIF, 'rules', 'fn_index.json'), 'w'))
+    _dir, _h = facts.ensure(_cfg)
+    _t = {}
+    for _c in facts.CRATES:
+        if not os.path.exists(os.path.join(_dir, f'midnight_{_c}.hir.json')):
+            continue
+        for _f in facts.load(_dir, _c, 'hir')['fns']:
+            _n = _core._norm_raw(_f['id'])
+            _ids.add(_n)
+            _t.setdefault(_n, []).append(_core.fn_fingerprint(_f))
+    _cfgs[_cfg] = {k: sorted(v) for k, v in sorted(_t.items())}
+json.dump({'all': sorted(_ids), 'configs': _cfgs}, open(os.path.join(facts.VERIF, 'rules', 'fn_index.json'), 'w'))
 _core._REF_FNS = None
 print('reference functions', len(_ids))
 
